@@ -2983,14 +2983,19 @@ def _coerce_to__arglikes(
         elif kwonlyargs:  # we have a `*, ` in the arguments, not allowed without a vararg
             raise _coerce_error('_arglikes', 'arguments', "has empty vararg '*'")
 
+        has_dflt = bool(defaults)
+
         for arg_, dflt in zip(kwonlyargs, kw_defaults, strict=True):  # kwarg and kwarg=kwdefault
             if arg_.annotation:
                 raise _coerce_error('_arglikes', 'arguments', 'arg has annotation')
 
             name = arg_.arg
 
+            if dflt:
+                has_dflt = True
+
             if not dflt:
-                if defaults:  # call(a=1, b) is invalid
+                if has_dflt:  # call(a=1, b) is invalid
                     raise _coerce_error('_arglikes', 'arguments', 'arg without default follows arg with default')
 
                 if not is_FST:
